@@ -6,6 +6,7 @@ import validation_rules
 import xml_rules
 import bounds_rules
 import header_rules
+import blob_rules
 
 TECHNIQUE = "panic-site inventory and interval discharge with writer roots; assume-prune decision table of add_point over (data type, value variant) with range-comparison must-pass; all-or-nothing / state-range tables of the prototype validators; validation-dominates-construction order; writer loop progress incl. the drain loop's >= 1 points per packet invariant; XML-name strength of validate_name"
 EXPLANATION = (
@@ -45,4 +46,6 @@ def run(ctx):
             ctx.call(xml_rules.xml_name_start, prog, "R7")
             ctx.call(xml_rules.escaping_gate, prog, "R8")
         ctx.call(header_rules.publication_order, prog, "R9")
+        ctx.call(blob_rules.image_siblings, prog, "R9")
+        ctx.call(blob_rules.write_protocol, prog, "R9")
     ctx.cfg = None
